@@ -56,6 +56,12 @@ def configs(tier):
     for g, sts in maj.items():
         for st in (sts if tier == "thorough" or g == "GD" else sts[:2]):
             c.append({"kind": "major", "gene": g, "cn": st})
+            if g == "GD":
+                # reads on the variants next to the structure break points only (RefSeq
+                # positions; 0-based: last base of e1 / i1 / e2, first base of e2)
+                c[-1]["only"] = [29, 39, 40, 59]
+    # first / last RefSeq base and the deletion-insertion of GD
+    c.append({"kind": "major", "gene": "GD", "cn": ["1", "1"], "only": [0, 49, 119]})
     mins = [("toy", ["1", "1"], {"1": 1, "3": 1}), ("toy", ["1", "1"], {"2": 1, "3": 1}),
             ("GA", ["1", "1"], {"3": 1, "4": 1}), ("GA", ["1", "5"], {"1": 1, "5#1": 1}),
             ("GB", ["1", "1"], {"4": 1, "5": 1}), ("GB", ["1", "1"], {"5": 2}),
@@ -66,6 +72,8 @@ def configs(tier):
     for g in ("toy", "GA", "GC", "GD"):
         for mc in ((3, 4) if tier == "thorough" else (3,)):
             c.append({"kind": "cn", "gene": g, "max_cn": mc})
+    for g in ("GA", "GB", "GD"):
+        c.append({"kind": "pileup", "gene": g})
     if tier == "thorough":
         c.append({"kind": "major", "gene": "cyp2c19", "cn": ["1", "1"], "support": 4})
         c.append({"kind": "major", "gene": "cyp2d6", "cn": ["1", "1"], "support": 4})
@@ -75,6 +83,84 @@ def configs(tier):
 
 def run_config(cfg):
     return globals()["run_" + cfg["kind"]](cfg)
+
+
+def _pileup_tables(gname):
+    genes = {b: gengene.load(gname, b) for b in ("hg19", "hg38")}
+    byref = {}
+    for b, g in genes.items():
+        for (pos, op) in g.mutations:
+            byref.setdefault(refid(g, Mutation(pos, op)), {})[b] = Mutation(pos, op)
+    return genes, byref
+
+
+def _pileup_case(genes, byref, case):
+    import c06
+
+    want = {tuple(case[0]): case[1]}
+    if tuple(case[2]) != tuple(case[0]) and case[3]:
+        want[tuple(case[2])] = case[3]
+    out = {}
+    for b, g in genes.items():
+        s = c06.new_sample(g)
+        muts, norm = collections.defaultdict(list), collections.defaultdict(list)
+        for rid, cnt in want.items():
+            m = byref[rid][b]
+            muts[m.pos, m.op] += [(40, 40)] * cnt
+            norm[m.pos] += [(40, 40)] * 2  # two reference observations there
+        s._make_coverage(norm, muts)
+        out[b] = {f"{rid[0]}{rid[1]}": (s.coverage.coverage(byref[rid][b]),
+                                        s.coverage.total(byref[rid][b].pos))
+                  for rid in want}
+    return out
+
+
+def run_pileup(cfg):
+    """The same observations expressed against either build go through the real
+    Sample._make_coverage: every catalogued variant (and every subset of <= 2 of them)
+    must end up with the same support in RefSeq terms, whichever strand / offset the build
+    puts the gene on (first and last mapped base included)."""
+    import itertools
+    import c06
+
+    res = new_result(cfg)
+    eng = Engine(name="c13p")
+    genes, byref = _pileup_tables(cfg["gene"])
+    # substitutions only: support of catalogued indels is kept in the sample's indel-site
+    # table by the read parser (C06), not in the table _make_coverage builds
+    ids = sorted(k for k, v in byref.items() if len(v) == 2 and ">" in k[1])
+    i1, i2 = z3.Int("v1"), z3.Int("v2")
+    n1, n2 = z3.Int("n1"), z3.Int("n2")
+    tag = f"pileup/{cfg['gene']}"
+
+    def run():
+        a = eng.choose(i1, range(len(ids)))
+        b_ = eng.choose(i2, range(a, len(ids)))
+        ca = eng.choose(n1, (3, 10))
+        cb = eng.choose(n2, (0, 7))
+        case = [list(ids[a]), ca, list(ids[b_]), cb]
+        return case, _pileup_case(genes, byref, case)
+
+    n = 0
+    for dec, pc, (case, out) in eng.explore(run, [], max_paths=100000):
+        n += 1
+        same = out["hg19"] == out["hg38"]
+        ob(res, f"{tag}: the same observations give the same support and depth in both "
+                "builds (RefSeq terms) after Sample._make_coverage", "holds" if same
+           else "sat")
+        if not same:
+            res["violations"].append({
+                "what": f"{tag}: observations {case} -> hg19 {out['hg19']}, hg38 "
+                        f"{out['hg38']}", "key": "pileup:" + cfg["gene"],
+                "replay": {"kind": "pileup", "gene": cfg["gene"], "case": list(case)}})
+    seen = {}
+    for v in res["violations"]:
+        seen.setdefault(v["key"], v)
+    res["violations"] = list(seen.values())
+    res["stats"] = {**dict(eng.stats), "paths": n}
+    res["obligations"] = [{"label": o["label"], "status": o["status"], "secs": 0}
+                          for o in res["obligations"]]
+    return res
 
 
 def refid(gene, m):
@@ -109,10 +195,13 @@ def site_id(gene, pos):
     return gene.chr_to_ref.get(pos)
 
 
-def evidence(genes, muts_by_build, cn_list, restrict=None):
+def evidence(genes, muts_by_build, cn_list, restrict=None, only=None):
     """symbols keyed by RefSeq id; returns per build (counts, totals) + base, xs"""
     g19 = genes["hg19"]
     ids = sorted({refid(g19, m) for m in muts_by_build["hg19"]})
+    if only:
+        # evidence at these RefSeq positions only (the other variants have no reads)
+        ids = [i for i in ids if i[0] in only]
     if restrict:
         ids = ids[::max(1, len(ids) // restrict)][:restrict]
     xs = {i: z3.Real(f"x_{i[0]}_{i[1]}") for i in ids}
@@ -247,7 +336,7 @@ def run_major(cfg):
     genes = {b: gengene.load(cfg["gene"], b) for b in ("hg19", "hg38")}
     cn_list = list(cfg["cn"])
     muts = {b: stagelib.core_variants(g) for b, g in genes.items()}
-    ev, base, xs = evidence(genes, muts, cn_list, cfg.get("support"))
+    ev, base, xs = evidence(genes, muts, cn_list, cfg.get("support"), cfg.get("only"))
     if cfg.get("support"):
         base += [x > 0 for x in xs.values()]
     eng = Engine(name="c13", timeout_ms=120000)
@@ -460,6 +549,10 @@ def replay(o):
 
     if o["kind"] == "cn":
         return True, "structure models differ (symbolic)"
+    if o["kind"] == "pileup":
+        genes, byref = _pileup_tables(o["gene"])
+        out = _pileup_case(genes, byref, o["case"])
+        return out["hg19"] != out["hg38"], f"hg19 {out['hg19']}, hg38 {out['hg38']}"
     outs = {}
     for b in ("hg19", "hg38"):
         gene = gengene.load(o["gene"], b)
